@@ -181,6 +181,7 @@ static void do_rt(int argc, char** a, int with_recon)
 		double mn0, mx0; double e0 = n ? effective_bound(ty, copy, n, mode, absb, rel, &mn0, &mx0) : 0; double am = fabs(mn0) > fabs(mx0) ? fabs(mn0) : fabs(mx0);
 		printf("pe=%" PRIx64 " pamax=%" PRIx64 " ", bits_of_dbl(e0), bits_of_dbl(n ? am : 0)); fflush(R);
 	}
+	prime_stack();
 	unsigned char* bytes = SZ_compress_args(ty, data, &outSize, mode, absb, rel, pwr, cr[0], cr[1], cr[2], cr[3], cr[4]);
 	int input_modified = memcmp(copy, data, n * es) != 0;
 	if (bytes == NULL) { printf("st=null out=%zx n=%zx\n", outSize, n); free(data); free(copy); return; }
@@ -188,6 +189,7 @@ static void do_rt(int argc, char** a, int with_recon)
 	{ uint64_t h = 1469598103934665603ULL; for (size_t i = 0; i < outSize; i++) { h ^= bytes[i]; h *= 1099511628211ULL; } printf("out=%zx lc=%d sdig=%" PRIx64 " ", outSize, lc, h); }
 	fflush(R);   /* survives a crash of the decompressor (partial line) */
 	size_t dn = computeDataLength(dr[0], dr[1], dr[2], dr[3], dr[4]);
+	prime_stack();
 	void* dec = SZ_decompress(ty, bytes, outSize, dr[0], dr[1], dr[2], dr[3], dr[4]);
 	if (dec == NULL) { printf("st=dec-null n=%zx\n", n); free(bytes); free(data); free(copy); return; }
 	double mn, mx; double e = effective_bound(ty, copy, n, mode, absb, rel, &mn, &mx);
